@@ -303,10 +303,15 @@ def compare(case, impl, model):
 # ---------------------------------------------------------------------------
 # the clauses on the implementation's output
 # ---------------------------------------------------------------------------
-def _partial(snap):
-    """what the accessors expose: 'none' (all raise), 'complete', or a description of partial data"""
+def _partial(snap, async_study=False):
+    """what the accessors expose: 'none' (all raise), 'complete', or a description of partial data.
+    An ASYNCHRONOUS multi-repetition study runs its repetitions in worker processes: the object gets the table of
+    rows but no histories (all four accessors return None) - that is the complete result of such a study."""
     res = snap["results"]
     arrs = [snap[k] for k in ARRS]
+    if async_study and all(a is None for a in arrs):
+        res_ok = isinstance(res, dict) and "raise" not in res and res and all(v is not None for v in res.values())
+        return "complete" if res_ok else "partial"
     res_raise = isinstance(res, dict) and "raise" in res
     arr_raise = [isinstance(a, dict) for a in arrs]
     if res_raise and all(arr_raise):
@@ -426,7 +431,7 @@ def _check_table(case, prog, impl, run, site, out):
     last = dict(run)
     last["snap"] = dict(run["snap"])
     last["snap"]["results"] = tab[-1]
-    if all(v is not None for v in tab[-1].values()):
+    if all(v is not None for v in tab[-1].values()) and isinstance(run["snap"]["time"], list):
         sub = []
         _check_complete_run(case, prog, impl, last, site, sub)
         for f in sub:
@@ -445,7 +450,7 @@ def predicates(case, impl):
     for k, (prog, run) in enumerate(zip(progs, impl["runs"])):
         if "snap" not in run:
             continue
-        state = _partial(run["snap"])
+        state = _partial(run["snap"], async_study=bool(case.get("Nrep")) and case.get("how") == "async")
         cls = "fresh-object" if not had_complete else "reused-object"
         if run["raise"]:
             if run["raise"] not in ("ValueError", "IndexError"):
@@ -565,7 +570,7 @@ def cases_full_buffer():
         E = m["Etrace"]
         if m["NtExp"] != n or len(E) != n:
             return
-        for k in (19998, 19999, 19996):
+        for k in (19998, 19996):
             c = dict(base)
             c["Frand"] = 1 - math.exp(-(E[k - 1] + E[k]) / 2)
             c["kind"] = f"full-buffer:nucleation@{k}"
@@ -637,8 +642,28 @@ def cases_nrep_later_fails():
         c = dict(p0, t_tot=3000, Nrep=j + 1, how="sequential", kind=f"Nrep={j + 1}:later-repetition-fails")
         c["runs"] = [dict(t_tot=short, start=20, stop=-50, rate=0.1, holds=None, cnTemp=None, Frand=None)]
         yield c
+        # the same borderline programme on FRESH objects, in both execution modes: the study must raise (the
+        # pool's exception must not be swallowed) - never a table with the failed seeds silently missing
+        for how in ("async", "sequential"):
+            yield dict(p0, t_tot=short, Nrep=j + 1, how=how, kind=f"Nrep={j + 1}:{how}:one-repetition-fails")
+        # … and an asynchronous study in which every seed completes (table row i = seed i)
+        yield dict(p0, t_tot=3000, Nrep=j + 1, how="async", kind=f"Nrep={j + 1}:async:complete")
     except Exception:
         return
+
+
+def cases_thaw_refreeze(tier):
+    """VISF, shelf held at -1 C: the vacuum window freezes the product past 90 %, after the release it thaws back
+    below 90 %, the final ramp refreezes it - the integrated frozen fraction is NOT monotone and t_sol must be
+    its FIRST up-crossing (1D, 12 mm layer: 46 000 steps, save stride 5)"""
+    base = dict(dim="1D", config="VISF", height=0.012, diameter=0.02, k_s0=400, t_tot=2760, start=5, stop=-40,
+                rate=0.2, holds=[[-1, 1500]], cnTemp=None, Frand=None, kind="thaw-refreeze", row_stride=997,
+                yaml={"VISF": {"t_vac_start": 60 / 3600, "t_vac_duration": 660 / 3600, "p_vac": 30, "kappa": 0.02},
+                      "solution": {"solid_fraction": 0.05}})
+    out = [base]
+    if tier != "quick":
+        out.append(dict(base, k_s0=200, Frand=0.3))
+    return out
 
 
 def cases_late_stride():
@@ -665,6 +690,8 @@ def cases_late_stride():
 
 
 def cases(rng, tier):
+    for c in cases_thaw_refreeze(tier):
+        yield c
     for c in cases_late_stride():
         yield c
     yield su.jacket_case()
@@ -686,7 +713,7 @@ def cases(rng, tier):
         c = dict(c)
         c["kind"] = "c08"
         yield c
-    ns, nsh = (1, 10) if tier == "quick" else (12, 40)
+    ns, nsh = (0, 10) if tier == "quick" else (12, 40)
     for c in su.stride_cases():
         yield dict(c)
     for _ in range(ns):
